@@ -13,6 +13,8 @@ mod kani_c14_ring {
     const MAXCAP: usize = env_usize(option_env!("VERIF_RINGCAP"), 6);
 
     fn absq(rb: &RingBuffer<u8>, k: usize) -> u8 { let cap = rb.storage.len(); rb.storage[(rb.read_at + k) % cap] }
+    /// free slot at logical offset f beyond the queue tail (what get_unallocated/write_unallocated address)
+    fn free_at(rb: &RingBuffer<u8>, f: usize) -> u8 { let cap = rb.storage.len(); rb.storage[(rb.read_at + rb.length + f) % cap] }
     fn wf(rb: &RingBuffer<u8>) -> bool { let cap = rb.storage.len(); rb.length <= cap && (if cap == 0 { rb.read_at == 0 } else { rb.read_at < cap }) }
 
     /// symbolic ring of symbolic capacity <= MAXCAP with ghost (k, v)
@@ -69,12 +71,15 @@ mod kani_c14_ring {
         let mut out = [0u8; MAXCAP + 1];
         let n: usize = kani::any();
         kani::assume(n <= MAXCAP + 1); // tag: range
+        let f: usize = kani::any();     // ghost: a free slot at offset f beyond the tail holds w
+        let fw = if f < cap - len { Some((f, free_at(&rb, f))) } else { None };
         let r = rb.dequeue_slice(&mut out[..n]);
         kani::cover!(r > 1, "multi-element dequeue reachable");
         assert!(r == n.min(len), "C14.dequeue_slice: returns the head of the queue, as much as fits");
         assert!(wf(&rb) && rb.length == len - r);
         if k < r { assert!(out[k] == v, "C14.dequeue_slice: elements come back in order"); }
         if k >= r && k < len { assert!(absq(&rb, k - r) == v, "C14.dequeue_slice: the rest of the queue is shifted, unchanged"); }
+        if let Some((f, w)) = fw { assert!(free_at(&rb, f) == w, "C14.dequeue_slice: data pre-written beyond the tail (write_unallocated) keeps its offset"); }
         let _ = cap;
     }
 
@@ -110,6 +115,8 @@ mod kani_c14_ring {
         let take: usize = kani::any();
         let mut seen = 0usize;
         let mut got: Option<u8> = None;
+        let f: usize = kani::any();
+        let fw = if f < cap - len { Some((f, free_at(&rb, f))) } else { None };
         let (r, ()) = rb.dequeue_many_with(|buf| {
             seen = buf.len();
             kani::assume(take <= buf.len()); // tag: pre
@@ -121,6 +128,7 @@ mod kani_c14_ring {
         if let Some(g) = got { assert!(k < len && g == v, "C14.dequeue_many_with: the slice is the head of the queue in order"); }
         assert!(r == take && wf(&rb) && rb.length == len - take);
         if k >= take && k < len { assert!(absq(&rb, k - take) == v, "C14.dequeue_many_with: the rest is unchanged"); }
+        if let Some((f, w)) = fw { assert!(free_at(&rb, f) == w, "C14.dequeue_many_with: data pre-written beyond the tail keeps its offset"); }
     }
 
     #[kani::proof] #[kani::unwind(9)]
@@ -249,7 +257,10 @@ mod kani_c14_ring {
         if k < len { assert!(absq(&rb, k) == v, "C14.read_allocated: reading does not change the queue"); }
         let cnt: usize = kani::any();
         kani::assume(cnt <= len); // tag: pre
+        let f: usize = kani::any();
+        let fw = if f < cap - len { Some((f, free_at(&rb, f))) } else { None };
         rb.dequeue_allocated(cnt);
+        if let Some((f, w)) = fw { assert!(free_at(&rb, f) == w, "C14.dequeue_allocated: data pre-written beyond the tail keeps its offset"); }
         assert!(wf(&rb) && rb.length == len - cnt);
         if k >= cnt && k < len { assert!(absq(&rb, k - cnt) == v, "C14.dequeue_allocated: drops exactly the first count elements"); }
     }
